@@ -5,7 +5,7 @@ import re
 
 from codecs import register_error, xmlcharrefreplace_errors
 
-from .constants import voidElements, booleanAttributes, spaceCharacters
+from .constants import voidElements, booleanAttributes, spaceCharacters, namespaces
 from .constants import rcdataElements, entities, xmlEntities
 from . import treewalkers, _utils
 from xml.sax.saxutils import escape
@@ -300,7 +300,9 @@ class HTMLSerializer(object):
 
             elif type in ("StartTag", "EmptyTag"):
                 name = token["name"]
-                after_pre = type == "StartTag" and name in ("pre", "textarea", "listing")
+                after_pre = (type == "StartTag" and
+                             name in ("pre", "textarea", "listing") and
+                             token.get("namespace") in (None, namespaces["html"]))
                 yield self.encodeStrict("<%s" % name)
                 if name in rcdataElements and not self.escape_rcdata:
                     in_cdata = True
